@@ -29,6 +29,7 @@ type runCase struct {
 	FailFast bool        `json:"failFast"`
 	NoSumm   bool        `json:"noTestSummary"`
 	Seed     int64       `json:"randSeed"`
+	Sound    bool        `json:"soundOnly"`
 	Expect   struct {
 		Effects []any    `json:"effects"`
 		Result  []string `json:"result"`
@@ -160,6 +161,9 @@ func stageRun(raw json.RawMessage) Result {
 		obs["parseErr"] = o.ParseErr.Error()
 		return Result{OK: false, Obs: obs, Diff: "specification says this program is well-formed, parser rejects it: " + firstLine(o.ParseErr.Error())}
 	}
+	if c.Sound {
+		return soundVerdict(c, o, obs)
+	}
 	if d := diffEffects(c.Expect.Effects, o.Effects); d != "" {
 		if o.ResultErr != nil {
 			obs["err"] = o.ResultErr.Error()
@@ -191,4 +195,28 @@ func firstLine(s string) string {
 		return s[:i]
 	}
 	return s
+}
+
+// soundVerdict is the weaker oracle used where the documentation leaves the
+// behaviour open: the run must not go wrong (internal error; Go panics and
+// hangs are caught by the worker pool) and what the specification says
+// happened before the open point must have happened.
+func soundVerdict(c runCase, o observation, obs map[string]any) Result {
+	if strings.HasPrefix(o.Result, "internal") || strings.HasPrefix(o.Result, "unknown") {
+		if o.ResultErr != nil {
+			obs["err"] = o.ResultErr.Error()
+		}
+		return Result{OK: false, Obs: obs, Diff: "accepted program went wrong: " + o.Result}
+	}
+	w := decode(c.Expect.Effects).([]any)
+	g := normEffects(o.Effects)
+	for i := range w {
+		if i >= len(g) {
+			return Result{OK: false, Obs: obs, Diff: fmt.Sprintf("effect %d (before the unspecified point): spec %s, implementation has no further effect (result %s)", i, effectString(w[i]), o.Result)}
+		}
+		if !reflect.DeepEqual(w[i], g[i]) {
+			return Result{OK: false, Obs: obs, Diff: fmt.Sprintf("effect %d (before the unspecified point): spec %s, implementation %s", i, effectString(w[i]), effectString(g[i]))}
+		}
+	}
+	return Result{OK: true}
 }
